@@ -771,7 +771,7 @@ func runBatch(r *lib.Run, mode, kind string, shard, nshards, sampleOneIn int) {
 	case "rand":
 		uni := universeRand()
 		w := newWorld(r, kind, bm, uni)
-		nseq, nops := r.Pick(60, 1000), r.Pick(40, 60)
+		nseq, nops := r.Pick(60, 400), r.Pick(40, 60)
 		rng := r.SubRng("c18-rand-" + kind)
 		for s := 0; s < nseq; s++ {
 			seed := rng.Int63()
@@ -873,7 +873,7 @@ func main() {
 		jobs = append(jobs, job{fmt.Sprintf("exh-leveldb-%d", s), []string{"exh", "leveldb", fmt.Sprint(s), fmt.Sprint(exhShards), "1"}})
 	}
 	for _, k := range []string{"leveldb2", "leveldb3"} {
-		jobs = append(jobs, job{"exh-" + k, []string{"exh", k, "0", "1", fmt.Sprint(r.Pick(10, 3))}})
+		jobs = append(jobs, job{"exh-" + k, []string{"exh", k, "0", "1", fmt.Sprint(r.Pick(10, 5))}})
 	}
 	for _, k := range lib.FilerStoreKinds {
 		rs := r.Pick(1, 2)
@@ -881,7 +881,7 @@ func main() {
 			jobs = append(jobs, job{fmt.Sprintf("rand-%s-%d", k, s), []string{"rand", k, fmt.Sprint(s), fmt.Sprint(rs), "1"}})
 		}
 	}
-	sem := make(chan struct{}, 4)
+	sem := make(chan struct{}, r.Pick(4, 6))
 	var wg sync.WaitGroup
 	for _, j := range jobs {
 		wg.Add(1)
